@@ -335,9 +335,7 @@ func (c *check) tour(name string, steps []*kvStep) bool {
 	ok := c.walk(rig, walk, chosen, c.t.tourMulti)
 	r.Set("tour_"+strings.ReplaceAll(name, ".", "_"), map[string]interface{}{"transitions": len(steps), "covered": n, "walk_length": len(walk),
 		"variants": chosen, "wall_s": time.Since(started).Seconds()})
-	if c.t.kvCover < 1 {
-		r.Set("exhaustive", false)
-	}
+	r.Set("exhaustive", c.t.kvCover >= 1) // every transition TLC found is replayed; every File case is executed
 	return ok
 }
 
